@@ -6,12 +6,13 @@ package gorm
 //@ package gorm.io/gorm
 
 //@ # ---------- C04: transaction protocol ghost state ----------
-//@ ghost begins commits rollbacks sps rbtos fccalls spname rbname fcerrtag fcerrbox opened
+//@ ghost begins commits rollbacks sps rbtos fccalls spname rbname fcerrtag fcerrbox opened commitErrTag
 
 //@ event call (*DB).Begin
 //@   do begins = begins + 1
 //@ event call (*DB).Commit
 //@   do commits = commits + 1
+//@   do commitErrTag = tagof(result.Error)
 //@ event call (*DB).Rollback
 //@   do rollbacks = rollbacks + 1
 //@ event call (*DB).SavePoint
@@ -38,6 +39,7 @@ package gorm
 //@   ensures nested-disabled: sps == old(sps) ==> rbtos == old(rbtos)
 //@   ensures nested-outer-untouched: begins == old(begins) ==> commits == old(commits) && rollbacks == old(rollbacks)
 //@   ensures begin-failed: begins == old(begins) + 1 && fccalls == old(fccalls) ==> result != nil && commits == old(commits)
+//@   ensures commit-failure-reported: begins == old(begins) + 1 && fccalls == old(fccalls) + 1 && commits == old(commits) + 1 && commitErrTag != 0 ==> result != nil [C04,C05]
 //@   ensures finishes-what-it-begins: begins == old(begins) + 1 && opened == old(opened) + 1 ==> commits + rollbacks >= old(commits) + old(rollbacks) + 1
 //@   ensures nothing-to-finish-when-begin-failed: begins == old(begins) + 1 && opened == old(opened) ==> commits == old(commits) && rollbacks == old(rollbacks)
 //@   ensures-on-panic outer: begins == old(begins) + 1 ==> rollbacks == old(rollbacks) + 1 && commits == old(commits)
@@ -59,7 +61,7 @@ package gorm
 //@   loop "callback (*sync.Map).Range" invariant preloads-all-copied: forallkey(k, stmt.Preloads, has(stmt.Preloads, k) ==> has(newStmt.Preloads, k) && newStmt.Preloads[k] == stmt.Preloads[k]) [C11,C06]
 //@   ensures fresh-stmt: fresh(result) && fresh(result.Clauses) && fresh(result.Preloads) [C06,C11]
 //@   ensures every-preload-copied: forallkey(k, stmt.Preloads, has(stmt.Preloads, k) ==> has(result.Preloads, k) && result.Preloads[k] == stmt.Preloads[k]) [C11,C06]
-//@   ensures chain-state: result.Table == stmt.Table && result.TableExpr == stmt.TableExpr && result.Model == stmt.Model && result.Unscoped == stmt.Unscoped && result.Dest == stmt.Dest && result.Distinct == stmt.Distinct && result.Selects == stmt.Selects && result.Omits == stmt.Omits && result.ColumnMapping == stmt.ColumnMapping && result.Schema == stmt.Schema && result.RaiseErrorOnNotFound == stmt.RaiseErrorOnNotFound && result.SkipHooks == stmt.SkipHooks [C16,C06]
+//@   ensures chain-state: result.Table == stmt.Table && result.TableExpr == stmt.TableExpr && result.Model == stmt.Model && result.Unscoped == stmt.Unscoped && result.Dest == stmt.Dest && result.Distinct == stmt.Distinct && result.Selects == stmt.Selects && result.Omits == stmt.Omits && result.ColumnMapping == stmt.ColumnMapping && result.Schema == stmt.Schema && result.RaiseErrorOnNotFound == stmt.RaiseErrorOnNotFound && result.SkipHooks == stmt.SkipHooks [C16,C06,C15]
 //@   ensures context: result.Context == stmt.Context [C18]
 //@   ensures connpool: result.ConnPool == stmt.ConnPool [C05,C04]
 //@   ensures every-clause-copied: forallkey(k, stmt.Clauses, has(stmt.Clauses, k) ==> has(result.Clauses, k) && result.Clauses[k] == stmt.Clauses[k]) [C06,C09,C16,C08]
@@ -86,7 +88,7 @@ package gorm
 
 //@ func (*DB).Session
 //@   tags C06
-//@   modifies *db.cacheStore [C06,C18]
+//@   modifies *db.cacheStore [C06,C18,C05,C19]
 //@   ensures fresh-handle: fresh(result) && fresh(result.Config) && (!config.Initialized ==> result.clone >= 1)
 //@   ensures context-kept: config.Context == nil ==> result.Statement.Context == db.Statement.Context [C18]
 //@   ensures context-set: config.Context != nil ==> result.Statement.Context == config.Context [C18]
@@ -466,6 +468,27 @@ package gorm
 //@   in gorm.(*Statement).AddVar
 //@   min-sites 1
 //@   assert starts-from-parents-values: len(arg1.Statement.Vars) >= len(stmt.Vars) && forall(k, 0, len(stmt.Vars), arg1.Statement.Vars[k] == stmt.Vars[k]) [C01]
+//@ # AddVar itself writes only fixed punctuation, "(NULL)" and the text a sub-query rendered; no builder turns a
+//@ # value into text (the one way a value could reach the SQL text instead of the argument list).
+//@ ghost RENDERED
+//@ event call strings.(*Builder).String
+//@   in gorm.(*Statement).AddVar
+//@   do RENDERED = result
+//@ site addvar-writes-no-value-text
+//@   match invoke Writer.WriteString
+//@   in gorm.(*Statement).AddVar
+//@   min-sites 3
+//@   assert fixed-text-or-rendered-subquery: arg0 == "(NULL)" || arg0 == RENDERED [C01]
+//@ site addvar-writes-only-punctuation-bytes
+//@   match invoke Writer.WriteByte
+//@   in gorm.(*Statement).AddVar
+//@   min-sites 5
+//@   assert comma-or-parenthesis: arg0 == 44 || arg0 == 40 || arg0 == 41 [C01]
+//@ site builders-never-format-values
+//@   match call strconv.* | call fmt.*
+//@   in gorm.(*Statement).AddVar clause.(*).Build clause.(*).NegationBuild clause.buildExprs
+//@   min-sites 0
+//@   assert no-value-to-text-conversion: false [C01]
 
 //@ # ---------- C10: permission-denied fields are never selected for a write ----------
 //@ spec colName(f) = ite(f.DBName == "", f.Name, f.DBName)
@@ -538,6 +561,18 @@ package gorm
 //@   min-sites 2
 //@   entry limitedTo1 == 0 && orderedByPK == 0
 //@   assert one-row-in-primary-key-order: orderedByPK != 0 && ref(arg0) == orderedByPK [C16]
+//@ # Attrs apply only when nothing was found, Assign always, and each list is handed over on its own (a key/value list
+//@ # is read as a whole: mixing two lists changes what the keys mean); conditions first, then Attrs, then Assign.
+//@ site first-or-init-applies-one-list-at-a-time
+//@   match call gorm.(*DB).assignInterfacesToValue
+//@   in gorm.(*DB).FirstOrInit
+//@   min-sites 3
+//@   assert conditions-attrs-or-assigns: arg1 == tx.Statement.attrs || arg1 == tx.Statement.assigns || len(arg1) == 1 [C16]
+//@ site first-or-create-applies-one-list-at-a-time
+//@   match call gorm.(*DB).assignInterfacesToValue
+//@   in gorm.(*DB).FirstOrCreate
+//@   min-sites 3
+//@   assert conditions-attrs-or-assigns: arg1 == db.Statement.attrs || arg1 == db.Statement.assigns || len(arg1) == 1 [C16]
 //@ func (*DB).FirstOrCreate
 //@   tags C16
 //@   assumes handle-well-formed: db.clone > 0 || (db.Statement != nil && db.Statement.DB == db)
@@ -581,9 +616,46 @@ package gorm
 //@   requires positive-batch-size: batchSize >= 1
 //@   assumes handle-well-formed: db.clone > 0 || (db.Statement != nil && db.Statement.DB == db)
 //@   may-panic fc
-//@   loop 1 invariant batch-size-in-range: 1 <= batchSize && batchSize <= old(batchSize)
-//@   loop 1 invariant handle-is-reusable: tx.clone > 0
-//@   loop 1 invariant only-full-batches-so-far: totalSize > 0 ==> (rowsAffected == batch * batchSize || rowsAffected + batchSize == totalSize)
+//@   loop "for" invariant batch-size-in-range: 1 <= batchSize && batchSize <= old(batchSize)
+//@   loop "for" invariant handle-is-reusable: tx.clone > 0
+//@   loop "for" entry-assert or-conditions-were-grouped: orSeen == 1 ==> regrouped == 1
+//@   loop "for" invariant only-full-batches-so-far: totalSize > 0 ==> (rowsAffected == batch * batchSize || rowsAffected + batchSize == totalSize)
+//@ # The key condition that moves the cursor (id > last id of the batch) is ANDed to the chain's conditions: with an OR
+//@ # unit among them it would bind to the last one only and the rows of the others would come back in every batch
+//@ # (finding F16). So before the loop the conditions of the batch handle (tx) are examined - hasOrCondition finds an
+//@ # OR unit iff there is one - and, if one was found, replaced by one AND group; the cursor condition is added to that
+//@ # handle. That nothing called from the loop (Find on a derived chain, the callback) rewrites the WHERE list of tx is
+//@ # not decided here: it is C06 for Find and an assumption for the callback.
+//@ ghost orSeen regrouped
+//@ event call hasOrCondition
+//@   in gorm.(*DB).FindInBatches
+//@   do orSeen = ite(result, 1, 0)
+//@ event mapwrite Statement.Clauses
+//@   in gorm.(*DB).FindInBatches
+//@   do regrouped = 1
+//@ func hasOrCondition
+//@   tags C15
+//@   modifies nothing
+//@   loop 1 invariant no-or-unit-so-far: 0 <= iter && iter <= len(exprs) && forall(k, 0, iter, !singleOr(exprs[k]))
+//@   ensures none-found-means-there-is-none: !result ==> forall(k, 0, len(exprs), !singleOr(exprs[k]))
+//@   ensures found-means-there-is-one: result ==> exists(k, 0, len(exprs), singleOr(exprs[k]))
+//@ site batch-conditions-examined
+//@   match call gorm.hasOrCondition
+//@   in gorm.(*DB).FindInBatches
+//@   min-sites 1
+//@   entry orSeen == 0 && regrouped == 0
+//@   assert conditions-of-the-batch-handle: arg0 == whereExprs(tx.Statement) [C15]
+//@ site batch-conditions-grouped
+//@   match mapwrite Statement.Clauses
+//@   in gorm.(*DB).FindInBatches
+//@   min-sites 1
+//@   assert one-and-group-in-the-batch-handle: recv == tx.Statement && arg1 == "WHERE" && is(arg2.Expression, clause.Where) && len(arg2.Expression.(clause.Where).Exprs) == 1 && !is(arg2.Expression.(clause.Where).Exprs[0], clause.OrConditions) [C15]
+//@ site batch-cursor-condition
+//@   match call gorm.(*DB).Clauses
+//@   in gorm.(*DB).FindInBatches
+//@   min-sites 1
+//@   assert added-to-the-grouped-handle: arg0 == tx [C15]
+//@   assert key-greater-than-last-row: len(arg1) == 1 && is(arg1[0], clause.Gt) && arg1[0].(clause.Gt).Value == primaryValue [C15]
 //@ site batch-query-size
 //@   match call gorm.(*DB).Limit
 //@   in gorm.(*DB).FindInBatches
@@ -616,7 +688,7 @@ package gorm
 //@   match call gorm.(*DB).executeScopes
 //@   in gorm.(*Statement).BuildCondition
 //@   min-sites 1
-//@   assert not-on-a-reusable-handle: arg0.clone <= 0 [C06]
+//@   assert not-on-a-reusable-handle: arg0.clone <= 0 [C06,C09]
 //@ # BuildCondition's overall frame is trusted (reflection), but its element stores are swept: a condition list is
 //@ # only ever written in an array the call allocated (finding F14: the WHERE list of a *DB argument was rewritten
 //@ # in place).
@@ -744,6 +816,13 @@ package gorm
 //@   let select0 = db.Statement.Clauses["SELECT"]
 //@   ensures ordering-restored: hadOrder && !grouped ==> has(result.Statement.Clauses, "ORDER BY") && result.Statement.Clauses["ORDER BY"] == order0
 //@   ensures selection-restored: hadSelect ==> has(result.Statement.Clauses, "SELECT") && result.Statement.Clauses["SELECT"] == select0
+//@ # Count removes clauses only from the statement of the instance it made (tx): on a reusable handle that is a clone,
+//@ # so the handle keeps its ORDER BY and SELECT. (The deferred closures that put them back name tx themselves.)
+//@ site count-edits-its-own-statement
+//@   match mapdelete Statement.Clauses | mapwrite Statement.Clauses
+//@   in gorm.(*DB).Count
+//@   min-sites 2
+//@   assert never-the-statement-of-a-reusable-handle: db.clone > 0 ==> recv != db.Statement [C06]
 
 //@ # ---------- C19: ToSQL renders the receiver's chain in a dry-run session ----------
 //@ # The handle given to the callback is a DryRun session (no driver call), without the implicit transaction, and it
@@ -801,6 +880,69 @@ package gorm
 //@   in gorm.(*DB).Save
 //@   min-sites 1
 //@   assert key-part-of-the-saved-value: arg1 == reflectValue [C16]
+
+//@ # ---------- C10: Save writes all fields unless the chain itself selected some ----------
+//@ # Omit only narrows "all fields"; it is not a selection. Without "*" the struct update would skip zero values.
+//@ site save-selects-every-field-by-default
+//@   match call gorm.(*callbacks).Update
+//@   in gorm.(*DB).Save
+//@   min-sites 1
+//@   assert some-selection-in-force: len(tx.Statement.Selects) >= 1 [C10]
+//@   assert all-fields-unless-the-chain-selected: selectedUpdate || tx.Statement.Selects[len(tx.Statement.Selects) - 1] == "*" [C10]
+
+//@ # ---------- C02: each chain call adds its conditions as one unit ----------
+//@ # Where adds the conditions as they are (AND), Not negates them as one group, Or adds one OR unit holding the
+//@ # AND-group of everything the call was given.
+//@ site where-adds-the-conditions-as-built
+//@   match call gorm.(*Statement).AddClause
+//@   in gorm.(*DB).Where
+//@   min-sites 1
+//@   assert and-unit: is(arg1, clause.Where) && arg1.(clause.Where).Exprs == conds [C02]
+//@ site not-negates-the-whole-call
+//@   match call clause.Not
+//@   in gorm.(*DB).Not
+//@   min-sites 1
+//@   assert all-conditions-of-the-call: arg0 == conds [C02]
+//@ site or-groups-the-whole-call
+//@   match call clause.And
+//@   in gorm.(*DB).Or
+//@   min-sites 1
+//@   assert all-conditions-of-the-call: arg0 == conds [C02]
+//@ site or-adds-one-or-unit
+//@   match call clause.Or
+//@   in gorm.(*DB).Or
+//@   min-sites 1
+//@   assert single-member: len(arg0) == 1 [C02]
+//@ site not-and-or-add-one-unit
+//@   match call gorm.(*Statement).AddClause
+//@   in gorm.(*DB).Not gorm.(*DB).Or
+//@   min-sites 2
+//@   assert one-unit: is(arg1, clause.Where) && len(arg1.(clause.Where).Exprs) == 1 [C02]
+
+//@ # ---------- C03: after ON CONFLICT DO NOTHING the returned rows go to the records that were inserted ----------
+//@ # Scan back-fills the rows RETURNING gave into the created slice. A record that already carries one of the
+//@ # returning values (its key) was not inserted: it is skipped, so the next returned row goes to the next record
+//@ # whose returning values are all unset.
+//@ ghost allUnset checkedUnset
+//@ event calldyn Field.ValueOf
+//@   in gorm.Scan
+//@   do allUnset = ite(result1, allUnset, 0)
+//@ func Scan
+//@   tags C03
+//@   loop "range fields" entry-do allUnset = 1
+//@   loop "range fields" invariant every-returning-value-so-far-is-unset: allUnset == 1
+//@   loop "range fields" exit-do checkedUnset = allUnset
+//@ site returning-value-probe
+//@   match calldyn Field.ValueOf
+//@   in gorm.Scan
+//@   min-sites 1
+//@   assume-after field-readers-do-not-scan: allUnset == ite(result1, old(allUnset), 0)
+//@   assert probes-the-record-about-to-be-filled: arg1 == elem [C03]
+//@ site returned-row-goes-to-an-unset-record
+//@   match call gorm.(*DB).scanIntoStruct
+//@   in gorm.Scan
+//@   min-sites 2
+//@   assert record-had-no-returning-value: defined(isArrayKind) && update && onConflictDonothing ==> checkedUnset == 1 [C03]
 
 //@ # ---------- C18/C04: a nested block is set up and undone on the caller's handle ----------
 //@ # SAVEPOINT and ROLLBACK TO SAVEPOINT of a nested Transaction carry the same context (and run on the same
